@@ -453,8 +453,7 @@ def _check_cancel(ctx):
     f = ctx.func(DEFER, "DeferredList.cancel")
     g = ctx.cfg(f, exception_is_all=False)
     q = Q + "DeferredList.cancel"
-    heads = _loop_heads(g, lambda st: attr_of(st.iter, "_deferredList", "self") or
-                        (isinstance(st.iter, ast.Call) and any(attr_of(a, "_deferredList", "self") for a in st.iter.args)))
+    heads = _loop_heads(g, lambda st: any(attr_of(x, "_deferredList", "self") for x in ast.walk(st.iter)))
     ctx.check(len(heads) == 1, "cancel/iterates-inputs", q, "cancel() does not loop over self._deferredList")
     for head in heads:
         var = g.node(head).ast.target
@@ -492,7 +491,7 @@ def _check_gather(ctx):
     init = ctx.func(DEFER, "DeferredList.__init__")
     ps = params(f)
     rets = [st for st in ast.walk(f) if isinstance(st, ast.Return)]
-    ctx.need(rets, "return statement of gatherResults")
+    ctx.check(bool(rets), "gather/extracts-values", q + " | <return>", "gatherResults returns nothing")
     calls = [x for x in ast.walk(f) if isinstance(x, ast.Call) and dotted(x.func) == "DeferredList"]
     ctx.check(len(calls) == 1, "gather/builds-deferredlist", q, "gatherResults does not build exactly one DeferredList")
     for c in calls:
